@@ -87,7 +87,7 @@ func judgeC02(c *Case, tr *hx.Trace, w *ref.World) []Verdict {
 
 func c0102(rep *ev.Reporter, tier string, judge func(c *Case, tr *hx.Trace, w *ref.World) []Verdict) {
 	nShapes, maxCycle := 5, uint64(4)
-	bud := NewBudget(170 * time.Second)
+	bud := NewBudget(300 * time.Second)
 	if tier == "thorough" {
 		nShapes, maxCycle = 99, 6
 		bud = NewBudget(9 * time.Minute)
